@@ -2,7 +2,9 @@
 import string
 
 METHODS = ["GET", "POST", "PUT", "DELETE", "PATCH", "OPTIONS"]
-HNAMES = ["x-a", "X-B", "Accept", "x-ms-version", "User-Agent", "X-Custom-Header", "cache-control", "Metadata", "x-ms-azure-host-region", "X-Ms-Azure-Host-Claims-Version", "x-ms-azure-hostname", "x-ms-azure-host-datetime", "x-ms-azure-host"]
+HNAMES = ["x-a", "X-B", "Accept", "x-ms-version", "User-Agent", "X-Custom-Header", "cache-control", "Metadata", "x-ms-azure-host-region", "X-Ms-Azure-Host-Claims-Version", "x-ms-azure-hostname", "x-ms-azure-host-datetime", "x-ms-azure-host",
+          # credentials of the client's own (names that END like the proxy-owned authorization header)
+          "Authorization", "Proxy-Authorization", "x-authorization"]
 TOK = string.ascii_letters + string.digits + "-_.~"
 
 
